@@ -111,3 +111,4 @@ try:
     print("caught by:", meta["caught_by"])
 finally:
     subprocess.run("git -C /repo worktree remove --force %s" % wt, shell=True, stderr=subprocess.DEVNULL)
+    subprocess.run("rm -f %s/.bin/drive-*.alt-%s" % (ROOT, re.sub(r"[^A-Za-z0-9]+", "_", wt).strip("_")), shell=True)
